@@ -14,7 +14,9 @@
 (*            removed  the removal cache: for every cached address the element  *)
 (*                     it points at as (node, slot), slot 0 = the pivot;        *)
 (*                     node 0 = the address is not an element of the tree       *)
-(* Distances are integers; +-infinity is written as +-1000000.                  *)
+(* Distances are integers; +-infinity is written as +-1000000.  The fields      *)
+(* live / vis / visSparse of a record are informational and read by nothing     *)
+(* here.                                                                        *)
 EXTENDS NNContract, TraceIO
 
 VARIABLE l
@@ -24,17 +26,20 @@ IsAudit == l <= NLog /\ Rec.e = "Audit"
 
 N(r, id) == r.nodes[id]
 Ids(r) == 1..Len(r.nodes)
-Pts(sq) == {sq[i].pt : i \in 1..Len(sq)}
+(* an element of data_ is dead when its address is in the removal cache; dead elements stay in  *)
+(* the tree until the next rebuild but no query may return them, so the tables owe them nothing *)
+Dead(r) == {<<r.removed[i].node, r.removed[i].slot>> : i \in 1..Len(r.removed)}
+LiveData(r, id) == {N(r, id).data[s].pt : s \in {t \in 1..Len(N(r, id).data) : <<id, t>> \notin Dead(r)}}
 
-(* positions of all elements physically stored in the subtree of node id, pivot included *)
+(* positions of all live elements stored in the subtree of node id, pivot included *)
 RECURSIVE SubPts(_, _)
 SubPts(r, id) ==
     LET n == N(r, id)
-    IN  {n.pivot.pt} \cup Pts(n.data) \cup UNION {SubPts(r, n.children[c]) : c \in 1..Len(n.children)}
+    IN  {n.pivot.pt} \cup LiveData(r, id) \cup UNION {SubPts(r, n.children[c]) : c \in 1..Len(n.children)}
 (* ... below the node: everything in its subtree except its own pivot *)
 BelowPts(r, id) ==
     LET n == N(r, id)
-    IN  Pts(n.data) \cup UNION {SubPts(r, n.children[c]) : c \in 1..Len(n.children)}
+    IN  LiveData(r, id) \cup UNION {SubPts(r, n.children[c]) : c \in 1..Len(n.children)}
 
 (* minRadius_ / maxRadius_ of every node but the root enclose the distances from its pivot to  *)
 (* everything below it (a subtree is skipped when the query ball misses that shell)           *)
